@@ -1048,6 +1048,10 @@ def run(ctx: Ctx, rep: Report, tier: str) -> None:
     address_spellings_whole(ctx, rep)
     group_reference_whole(ctx, rep)
     log_keywords_pass(ctx, rep)
+    # R01.19 every protocol name of the tables is read as the protocol field (C09 R09.13)
+    from .c09 import grammar_reads_protocols
+
+    grammar_reads_protocols(ctx, rep, rid="R01.19")
     # R01.15 an address in the text is read whole (C13 R13.7)
     from .c13 import address_patterns_whole
 
